@@ -5,7 +5,7 @@
 //	instrument pool  <dir>        every mention of the type sync.Pool in package <dir> becomes verifPool
 //	instrument smap  <dir>        every mention of the type sync.Map in package <dir> becomes verifSyncMap,
 //	                              and verif_reset_gen.go is written with a reset function for package-level maps
-//	instrument atomics <file>...  a csproto.VerifYield("gen.atomic") statement is inserted before every
+//	instrument atomics <file>...  a csproto.VerifYieldPoint("gen.atomic") statement is inserted before every
 //	                              statement that calls a sync/atomic function
 //
 // All rewrites are behaviour preserving: the substituted types have the same method surface and
@@ -323,10 +323,10 @@ func yieldAtFuncEntry(dir, yieldFn string) error {
 	return nil
 }
 
-// yieldBeforeAtomics inserts csproto.VerifYield("gen.atomic") before statements calling sync/atomic.
+// yieldBeforeAtomics inserts csproto.VerifYieldPoint("gen.atomic") before statements calling sync/atomic.
 func yieldBeforeAtomics(path string) error { return yieldBeforeAtomicsWith(path, "", "gen.atomic") }
 
-// yieldBeforeAtomicsWith inserts <fn>(<label>) - or csproto.VerifYield(<label>) if fn is empty - before every
+// yieldBeforeAtomicsWith inserts <fn>(<label>) - or csproto.VerifYieldPoint(<label>) if fn is empty - before every
 // statement that calls a sync/atomic function.
 func yieldBeforeAtomicsWith(path, fn, label string) error {
 	fset := token.NewFileSet()
@@ -376,7 +376,7 @@ func yieldBeforeAtomicsWith(path, fn, label string) error {
 	count := 0
 	mk := func(pos token.Pos) ast.Stmt {
 		count++
-		var fun ast.Expr = &ast.SelectorExpr{X: &ast.Ident{Name: cs, NamePos: pos}, Sel: &ast.Ident{Name: "VerifYield"}}
+		var fun ast.Expr = &ast.SelectorExpr{X: &ast.Ident{Name: cs, NamePos: pos}, Sel: &ast.Ident{Name: "VerifYieldPoint"}}
 		if fn != "" {
 			fun = &ast.Ident{Name: fn, NamePos: pos}
 		}
